@@ -317,3 +317,9 @@ META = dict(
     explanation='both ends executed symbolically from source, message by message',
     required_outcomes=['refused', 'accepted', 'admission session analysed'],
 )
+
+
+def validate(tier):
+    """translator validation: the interpreter in concrete mode against CPython on the functions this check encodes"""
+    from engine import validate as v
+    return v.run(['messages', 'regex_model'], tier)
